@@ -370,6 +370,7 @@ func (osObj *VirtualOS) findMount(path string) (*Mount, string, bool) {
 		path += "/"
 	}
 	var match *Mount
+	var matchKey string
 	for k, v := range osObj.mounts {
 		if k == path {
 			// Exact match
@@ -382,8 +383,8 @@ func (osObj *VirtualOS) findMount(path string) (*Mount, string, bool) {
 				continue
 			}
 			// Prefix match. Keep looking to confirm this is the longest match.
-			if match == nil || len(k) > len(match.Target) {
-				match = v
+			if match == nil || len(k) > len(matchKey) {
+				match, matchKey = v, k
 			}
 		}
 	}
